@@ -65,3 +65,15 @@ func init() {
 		},
 	})
 }
+
+func init() {
+	register(&propertySpec{
+		ID: "T01", NeedCG: true, Quick: cfgAMD, Thorough: cfgAll,
+		Explanation: "scratch",
+		Run: func(w *World, r *Report, tier string) {
+			guard(r, "GLOBALS", func() { ruleGLOBALS(w, r, nil) })
+			guard(r, "GLOB", func() { ruleGLOB(w, r) })
+			guard(r, "NILF", func() { ruleNILF(w, r) })
+		},
+	})
+}
